@@ -4,6 +4,7 @@ import (
 	"fmt"
 	"sort"
 	"strings"
+	"sync/atomic"
 
 	"github.com/samber/ro"
 )
@@ -267,6 +268,7 @@ func runC11(e *Env) {
 		return r.Observer()
 	}
 	var connSub ro.Subscription
+	var connPub uint32 // connSub is handed between client actors: publish/acquire it like a real program would
 	maxLiveSeen := 0
 	exec := func(op OpSpec) {
 		e.K.Log(fmt.Sprintf("op %s %d", op.Op, op.A))
@@ -285,8 +287,9 @@ func runC11(e *Env) {
 			src.Push(Step{K: "C"})
 		case "connect":
 			connSub = conn.Connect()
+			atomic.StoreUint32(&connPub, 1)
 		case "disconnect":
-			if connSub != nil {
+			if atomic.LoadUint32(&connPub) == 1 && connSub != nil {
 				connSub.Unsubscribe()
 			}
 		}
